@@ -51,6 +51,12 @@
        C10_drain_next_spec    one step from any drain state: Some -> cursor_len
                               decreases by one; None -> cursor_len = 0 and the
                               cursor is unchanged (None forever)
+   * "exactly the entries the container held, each once", at every step: what
+     has been yielded and what the iterator still holds partition the content
+       C10_into_debug_rest    IntoIter after n steps: yielded = firstn n (rev content),
+                              still held = firstn (len - min n len) content
+       C10_drain_debug_rest   Drain after n steps: yielded = firstn n content,
+                              still owned by the cursor = skipn n content
    * "after drain() the container is empty and fully reusable no matter how much
      was consumed before it was dropped":
        C10_drain_empties_strong   for every n: take n items, drop the drain; in
@@ -77,7 +83,7 @@
    ======================================================================== *)
 Require Import Model.Base Model.Slots Model.MapOps Model.Exec.
 Require Import Proofs.Hoare Proofs.Inv Proofs.Safety Proofs.Safety2 Proofs.Spec Proofs.IterSpec
-               Proofs.Legacy.
+               Proofs.Legacy Proofs.Gaps.
 From Coq Require Import Permutation.
 
 (* ---------------------------------------------------------------------- *)
@@ -236,6 +242,43 @@ Proof. exact (fun K V Q T => @drain_session_logs K V Q T). Qed.
 Print Assumptions C10_drain_session_logs.
 
 (* ---------------------------------------------------------------------- *)
+(* what a partly consumed consuming iterator still holds (Proofs/Gaps.v):   *)
+(* yielded ++ still-held = the content, nothing twice, nothing missing       *)
+(* (interpreter key type `key`; V, T arbitrary)                              *)
+(* ---------------------------------------------------------------------- *)
+
+(* IntoIter after n steps: it has yielded the first n entries of the reversed
+   content and still holds (Exec.elems = the live prefix, Model/Exec.v) exactly
+   the first len - min n len entries of the content *)
+Theorem C10_into_debug_rest :
+  forall (V T : Type) (n : nat) (w : world key V T),
+    WF (self w) ->
+    wp (into_run n)
+       (fun (r : list (key * V)) (w' : world key V T) =>
+          Exec.elems (self w') =
+            firstn (len (self w) - Nat.min n (len (self w))) (Spec.elems (self w)) /\
+          r = firstn n (rev (Spec.elems (self w))))
+       (fun _ : world key V T => False) w.
+Proof. exact (fun V T => @into_debug_rest V T). Qed.
+Print Assumptions C10_into_debug_rest.
+
+(* Drain after n steps: it has yielded firstn n of the content and the range its
+   cursor still owns (range_list m c = the entries in slots [fst c, snd c),
+   Model/Exec.v) holds exactly skipn n of the content *)
+Theorem C10_drain_debug_rest :
+  forall (V T : Type) (n : nat) (w : world key V T),
+    WF (self w) ->
+    wp (c <- drain ;; drain_run n c)
+       (fun (r : list (key * V) * cursor) (w' : world key V T) =>
+          range_list (self w') (snd r) = skipn n (Spec.elems (self w)) /\
+          range_list (self w') (snd r) =
+            skipn (Nat.min n (length (Spec.elems (self w)))) (Spec.elems (self w)) /\
+          fst r = firstn n (Spec.elems (self w)))
+       (fun _ : world key V T => False) w.
+Proof. exact (fun V T => @drain_debug_rest V T). Qed.
+Print Assumptions C10_drain_debug_rest.
+
+(* ---------------------------------------------------------------------- *)
 (* non-vacuity                                                              *)
 (* ---------------------------------------------------------------------- *)
 
@@ -274,3 +317,16 @@ Example C10_example_drain :
   | _ => False
   end.
 Proof. vm_compute. repeat split; reflexivity. Qed.
+
+(* after one step the Drain over m3 still owns the other two entries; after two
+   steps the IntoIter over m3 still holds the first entry *)
+Example C10_example_rest :
+  match (c <- drain ;; drain_run 1 c) (w_of m3) with
+  | Ok r w' => range_list (self w') (snd r) = [(k_ 3 6, v_ 4 8); (k_ 5 7, v_ 6 9)]
+  | _ => False
+  end /\
+  match into_run 2 (w_of m3) with
+  | Ok r w' => Exec.elems (self w') = [(k_ 1 5, v_ 2 7)]
+  | _ => False
+  end.
+Proof. vm_compute. split; reflexivity. Qed.
